@@ -272,6 +272,16 @@ fn main() -> Result<()> {
     println!("EVM network: {evm_network:?}");
 
     let node_socket_addr = SocketAddr::new(opt.ip, opt.port);
+
+    // verification hook: report how the command line was interpreted, then exit without starting
+    #[cfg(feature = "verif-hooks")]
+    if std::env::var_os("ANTNODE_VERIF_DUMP_OPTS").is_some() {
+        println!("VERIF-OPT {opt:#?}");
+        println!("VERIF-REWARDS {rewards_address:?}");
+        println!("VERIF-EVM {evm_network:?}");
+        println!("VERIF-SOCKET {node_socket_addr}");
+        return Ok(());
+    }
     let (root_dir, keypair) = get_root_dir_and_keypair(&opt.root_dir)?;
 
     let (log_output_dest, log_reload_handle, _log_appender_guard) =
